@@ -84,6 +84,46 @@ func scenarioLeave(enc *json.Encoder, idx int, reset bool) map[string]any {
 	return s.finish(enc, false)
 }
 
+// ---------------------------------------------------------------- family F: server-side I/O errors at every operation index (C10, C11, C16)
+
+// The k-th Read (or Write) the server performs on the accepted connection fails like a reset connection, for k = from..to, on every
+// connection kind; the clients run an ordinary two-request session and put up with whatever happens.  Every connection must still be
+// released and counted exactly once, and a connection without a fault must be served afterwards.
+func scenarioIOFault(enc *json.Encoder, idx int, op string, from, to int) map[string]any {
+	s := startScenario(fmt.Sprintf("iofault-%s-%d-%d", op, from, idx), "iofault", stack.Options{HandshakeTimeout: 2 * time.Second, IdleTimeout: 2 * time.Second})
+	s.faults = map[string][2]any{}
+	var wg sync.WaitGroup
+	for k := from; k <= to; k++ {
+		for _, kind := range []string{"h1", "h2", "noalpn"} {
+			raw, id, err := s.dial(kind)
+			if err != nil {
+				continue
+			}
+			// the fault plan is keyed by the id, which the listener learns at Accept: register before any byte is written
+			s.mu.Lock()
+			s.faults[id] = [2]any{op, k}
+			s.mu.Unlock()
+			wg.Add(1)
+			go func(kind string, raw net.Conn) {
+				defer wg.Done()
+				s.session(kind, raw, 2)
+			}(kind, raw)
+		}
+	}
+	wg.Wait()
+	if !s.waitExited(6 * time.Second) {
+		s.note("connections still open 6s after every client of the I/O fault scenario left")
+	}
+	// control: no fault
+	for _, kind := range []string{"h1", "h2"} {
+		if _, err := s.client(kind, clientOpts{requests: 1}); err != nil {
+			s.note("control %s request after the faults failed: %v", kind, err)
+		}
+	}
+	s.waitExited(3 * time.Second)
+	return s.finish(enc, false)
+}
+
 // ---------------------------------------------------------------- family T: timeouts (C11)
 
 func scenarioTimeouts(enc *json.Encoder, idx int) map[string]any {
@@ -595,6 +635,15 @@ func runAll(tracePath, reportPath string) {
 		report = append(report, scenarioMix(enc, i, rng, nconn))
 	}
 	report = append(report, scenarioLeave(enc, 0, false), scenarioLeave(enc, 1, true))
+	nf := 10
+	if tier == "thorough" {
+		nf = 40
+	}
+	for i, op := range []string{"read", "write"} {
+		for from := 1; from <= nf; from += 10 {
+			report = append(report, scenarioIOFault(enc, i, op, from, from+9))
+		}
+	}
 	report = append(report, scenarioTimeouts(enc, 0))
 	for i, v := range []string{"none", "early", "idle", "handshaking", "mixed", "repeat", "handoff", "active"} {
 		report = append(report, scenarioShutdown(enc, i, v))
